@@ -14,13 +14,34 @@ def load(path):
     return m
 
 
+BENIGN = False
+
+
 def run_one(path, tier="quick"):
     m = load(path)
     tmp = tempfile.mkdtemp(prefix="mut_")
     try:
         repo = os.path.join(tmp, "repo")
         shutil.copytree("/repo", repo, ignore=shutil.ignore_patterns(".git", "__pycache__", "*.pyc", ".pytest_cache"))
-        edits = getattr(m, "EDITS", None) or [(m.FILE, m.OLD, m.NEW)]
+        for (f, fn, pat, repl) in getattr(m, "IN_FUNCTION", []):
+            # regex substitution restricted to the text of one function (from its def line to the next def/class at the same or lower indentation)
+            import re
+            fp = os.path.join(repo, f)
+            lines = open(fp).read().split("\n")
+            starts = [i for i, l in enumerate(lines) if re.match(r"\s*def " + re.escape(fn) + r"\(", l)]
+            if len(starts) != 1:
+                return (os.path.basename(path), m.PROP, "STALE", f"def {fn} occurs {len(starts)} times in {f}")
+            a = starts[0]
+            ind = len(lines[a]) - len(lines[a].lstrip())
+            b = a + 1
+            while b < len(lines) and not (lines[b].strip() and len(lines[b]) - len(lines[b].lstrip()) <= ind and not lines[b].lstrip().startswith(("#", ")"))):
+                b += 1
+            body = "\n".join(lines[a:b])
+            new_body, k = re.subn(pat, repl, body)
+            if k == 0:
+                return (os.path.basename(path), m.PROP, "STALE", f"pattern {pat} not found in {fn}")
+            open(fp, "w").write("\n".join(lines[:a] + [new_body] + lines[b:]))
+        edits = getattr(m, "EDITS", None) or ([(m.FILE, m.OLD, m.NEW)] if hasattr(m, "OLD") else [])
         for (f, old, new) in edits:
             p = os.path.join(repo, f)
             s = open(p).read()
@@ -39,25 +60,35 @@ def run_one(path, tier="quick"):
             mm = re.search(r"refuted=(\d+) undecided=(\d+) bounded_evals=\d+ bounded_failures=(\d+)", summ[0]) if summ else None
             proof = f"proof: refuted={mm.group(1)} undecided={mm.group(2)}; bounded_failures={mm.group(3)}" if mm else ""
             outs.append(f"{pr}: exit={r.returncode} {proof} {viol[0][:60] if viol else r.stdout.strip().splitlines()[-1] if r.stdout.strip() else r.stderr[-300:]}")
-            if not (r.returncode == 1 and viol):
+            if BENIGN:
+                if r.returncode != 0 or viol:
+                    ok = False
+            elif not (r.returncode == 1 and viol):
                 ok = False
+        if BENIGN:
+            return (os.path.basename(path), ",".join(props), "QUIET" if ok else "FALSE-ALARM", " | ".join(outs))
         return (os.path.basename(path), ",".join(props), "CAUGHT" if ok else "MISSED", " | ".join(outs))
     finally:
         shutil.rmtree(tmp, ignore_errors=True)
 
 
 def main():
+    global BENIGN
     only = sys.argv[1:]
-    d = os.path.join(ROOT, "selftest", "mutants")
+    if only and only[0] == "--benign":
+        # behaviour-preserving edits (selftest/benign): every listed check must stay quiet (exit 0, no VIOLATION line)
+        BENIGN = True
+        only = only[1:]
+    d = os.path.join(ROOT, "selftest", "benign" if BENIGN else "mutants")
     files = sorted(os.path.join(d, f) for f in os.listdir(d) if f.endswith(".py") and (not only or any(o in f for o in only)))
     with ThreadPoolExecutor(max_workers=4) as ex:
         res = list(ex.map(run_one, files))
     bad = 0
     for r in res:
         print(*r)
-        if r[2] != "CAUGHT":
+        if r[2] not in ("CAUGHT", "QUIET"):
             bad += 1
-    print(f"{len(res) - bad}/{len(res)} mutants caught")
+    print(f"{len(res) - bad}/{len(res)} {'benign edits left quiet' if BENIGN else 'mutants caught'}")
     sys.exit(1 if bad else 0)
 
 
